@@ -290,4 +290,170 @@ example : ¬ PerfTiesAgree exPerfTie 0 8 none ∧ PerfTiesAgree exPerfTie 0 0 no
   rw [h1, h2, h3, h4]
   decide +kernel
 
+
+/-! ## program / is_drum of a performance, as a function of the BAG of notes
+
+`programAndIsDrum_perm` (used in `perf_perm`, `metricPerf_perm`, `notePerf_perm`) says the result is the same for every
+storage order; the two theorems below say WHAT it is, in terms that do not mention order at all (the docstring of
+`_program_and_is_drum_from_sequence`).  `program_fold_depends_on_order`: the natural one-pass rewrite is not. -/
+
+theorem canonSet_eq_singleton {l : List Int} {p : Int} :
+    canonSet l = [p] ↔ l ≠ [] ∧ ∀ x ∈ l, x = p := by
+  constructor
+  · intro h
+    refine ⟨?_, ?_⟩
+    · rintro rfl
+      simp [canonSet] at h
+    · intro x hx
+      have := (mem_canonSet (y := x) (l := l)).mpr hx
+      rw [h] at this
+      simpa using this
+  · rintro ⟨hne, hall⟩
+    have hs := canonSet_sorted l
+    have hm : ∀ y, y ∈ canonSet l ↔ y ∈ l := fun y => mem_canonSet
+    cases hc : canonSet l with
+    | nil =>
+      cases l with
+      | nil => exact absurd rfl hne
+      | cons a as =>
+        have := (hm a).mpr (by simp)
+        rw [hc] at this
+        cases this
+    | cons a rest =>
+      rw [hc] at hs
+      have ha : a = p := hall a ((hm a).mp (by rw [hc]; simp))
+      cases rest with
+      | nil => rw [ha]
+      | cons b rest' =>
+        have hb : b = p := hall b ((hm b).mp (by rw [hc]; simp))
+        have : a < b := by
+          have := List.pairwise_cons.mp hs
+          exact this.1 b (by simp)
+        omega
+
+/-- what `_program_and_is_drum_from_sequence` returns, as a property of the BAG of selected notes (its docstring: "If
+multiple programs are found (or if is_drum is True), program will be None"): the program is `p` exactly when there is at
+least one selected note, none of them is a drum and ALL of them carry program `p` — no reference to storage order -/
+theorem programAndIsDrum_program_spec (s : NoteSeq) (inst : Option Int) (p : Int) :
+    (programAndIsDrum s inst).1 = some p ↔
+      (s.notes.filter (instOk inst) ≠ [] ∧ ∀ n ∈ s.notes.filter (instOk inst), n.isDrum = false ∧ n.program = p) := by
+  unfold programAndIsDrum
+  generalize s.notes.filter (instOk inst) = notes
+  by_cases h1 : notes.all (·.isDrum) = true
+  · simp only [h1, if_true]
+    constructor
+    · intro h; cases h
+    · rintro ⟨hne, hall⟩
+      cases notes with
+      | nil => exact absurd rfl hne
+      | cons a as =>
+        have := List.all_eq_true.mp h1 a (by simp)
+        have := (hall a (by simp)).1
+        simp_all
+  · simp only [h1, Bool.false_eq_true, if_false]
+    by_cases h2 : notes.all (fun n => !n.isDrum) = true
+    · simp only [h2, if_true]
+      have hne : notes ≠ [] := by
+        rintro rfl
+        simp at h1
+      have hnd : ∀ n ∈ notes, n.isDrum = false := by
+        intro n hn
+        have := List.all_eq_true.mp h2 n hn
+        simpa using this
+      have key := canonSet_eq_singleton (l := notes.map (·.program)) (p := p)
+      constructor
+      · intro h
+        have hc : canonSet (notes.map (·.program)) = [p] := by
+          revert h
+          cases hcs : canonSet (notes.map (·.program)) with
+          | nil => intro h; cases h
+          | cons a rest =>
+            cases rest with
+            | nil => intro h; simp at h; rw [h]
+            | cons b r => intro h; cases h
+        obtain ⟨_, hall⟩ := key.mp hc
+        exact ⟨hne, fun n hn => ⟨hnd n hn, hall _ (List.mem_map.mpr ⟨n, hn, rfl⟩)⟩⟩
+      · rintro ⟨_, hall⟩
+        have hc : canonSet (notes.map (·.program)) = [p] := by
+          apply key.mpr
+          refine ⟨by simpa using hne, ?_⟩
+          intro x hx
+          obtain ⟨n, hn, rfl⟩ := List.mem_map.mp hx
+          exact (hall n hn).2
+        rw [hc]
+    · simp only [h2, Bool.false_eq_true, if_false]
+      constructor
+      · intro h; cases h
+      · rintro ⟨_, hall⟩
+        exfalso
+        apply h2
+        apply List.all_eq_true.mpr
+        intro n hn
+        simp [(hall n hn).1]
+
+/-- … and `is_drum` is `True` / `False` exactly when all selected notes are / none is a drum (docstring: "If multiple
+values of is_drum are found, is_drum will be None"; no selected note at all counts as all-drums) -/
+theorem programAndIsDrum_isDrum_spec (s : NoteSeq) (inst : Option Int) :
+    ((programAndIsDrum s inst).2 = some true ↔ ∀ n ∈ s.notes.filter (instOk inst), n.isDrum = true) ∧
+    ((programAndIsDrum s inst).2 = some false ↔
+      s.notes.filter (instOk inst) ≠ [] ∧ ∀ n ∈ s.notes.filter (instOk inst), n.isDrum = false) := by
+  unfold programAndIsDrum
+  generalize s.notes.filter (instOk inst) = notes
+  by_cases h1 : notes.all (·.isDrum) = true
+  · have h1' := List.all_eq_true.mp h1
+    rw [if_pos h1]
+    refine ⟨⟨fun _ => h1', fun _ => rfl⟩, ⟨fun h => by simp at h, ?_⟩⟩
+    rintro ⟨hne, hall⟩
+    cases notes with
+    | nil => exact absurd rfl hne
+    | cons a as =>
+      have := h1' a (by simp)
+      have := hall a (by simp)
+      simp_all
+  · have hno : ¬ ∀ n ∈ notes, n.isDrum = true := fun h => h1 (List.all_eq_true.mpr h)
+    have hne : notes ≠ [] := by
+      rintro rfl
+      simp at h1
+    rw [if_neg h1]
+    by_cases h2 : notes.all (fun n => !n.isDrum) = true
+    · have hnd : ∀ n ∈ notes, n.isDrum = false := by
+        intro n hn
+        have := List.all_eq_true.mp h2 n hn
+        simpa using this
+      rw [if_pos h2]
+      refine ⟨⟨fun h => ?_, fun h => absurd h hno⟩, ⟨fun _ => ⟨hne, hnd⟩, fun _ => ?_⟩⟩
+      · exfalso
+        revert h
+        split <;> simp
+      · split <;> rfl
+    · rw [if_neg h2]
+      refine ⟨⟨fun h => by simp at h, fun h => absurd h hno⟩, ⟨fun h => by simp at h, ?_⟩⟩
+      rintro ⟨_, hall⟩
+      exfalso
+      apply h2
+      apply List.all_eq_true.mpr
+      intro n hn
+      simp [hall n hn]
+
+/-- the one-pass computation in which `none` stands both for "no note seen yet" and for "conflict" (so a conflict is
+forgotten at the next note): the result depends on where the odd note sits in the storage order -/
+def programFold (ps : List Int) : Option Int :=
+  ps.foldl (fun acc p => match acc with
+    | none => some p
+    | some q => if p = q then some q else none) none
+
+theorem program_fold_depends_on_order :
+    ([1, 2, 2] : List Int).Perm [2, 2, 1] ∧ programFold [1, 2, 2] = some 2 ∧ programFold [2, 2, 1] = none := by
+  refine ⟨?_, by decide, by decide⟩
+  exact (List.perm_append_comm (l₁ := [1]) (l₂ := [2, 2]))
+
+/-- non-vacuity: three notes of instrument 0, programs 1, 2, 2 (any storage order): no program; uniform program 5: 5 -/
+def exProg (a b c : Int) : NoteSeq :=
+  { exAbs with notes := [{ exNote 60 0 4 80 with program := a }, { exNote 64 4 8 80 with program := b },
+                         { exNote 67 8 12 80 with program := c }] }
+example : (programAndIsDrum (exProg 1 2 2) (some 0)).1 = none ∧ (programAndIsDrum (exProg 2 2 1) (some 0)).1 = none ∧
+    (programAndIsDrum (exProg 5 5 5) (some 0)) = (some 5, some false) ∧
+    (exProg 5 5 5).notes.filter (instOk (some 0)) ≠ [] := by decide +kernel
+example := (programAndIsDrum_program_spec (exProg 5 5 5) (some 0) 5).mp (by decide +kernel)
+
 end NSV.C12
